@@ -117,11 +117,23 @@ pub struct XCase {
     pub burst: bool,
     /// `r<j>` / `u` / `c` / `e`
     pub script: Vec<String>,
+    /// `clone` (requests go through clones of the exchange handle), `dropcaller<j>` (caller j drops its
+    /// response before the background task has run), `bgdrop0` / `bgdrop1` (the background task is dropped
+    /// before its first poll / after the requests were written), `late` (one more request after that)
+    pub mods: Vec<String>,
 }
 
 pub fn parse(t: &[&str]) -> Option<XCase> {
-    if t.len() != 5 || t[0] != "xchg" {
+    if (t.len() != 5 && t.len() != 6) || t[0] != "xchg" {
         return None;
+    }
+    let mods: Vec<String> = t.get(5).map(|m| m.split(',').map(String::from).collect()).unwrap_or_default();
+    for m in &mods {
+        let ok = ["clone", "bgdrop0", "bgdrop1", "late"].contains(&m.as_str())
+            || m.strip_prefix("dropcaller").map(|j| j.parse::<usize>().is_ok()).unwrap_or(false);
+        if !ok {
+            return None;
+        }
     }
     let script: Vec<String> = if t[4] == "-" { vec![] } else { t[4].split(',').map(String::from).collect() };
     for s in &script {
@@ -130,7 +142,7 @@ pub fn parse(t: &[&str]) -> Option<XCase> {
             return None;
         }
     }
-    Some(XCase { k: t[1].parse().ok()?, flood: t[2].parse().ok()?, burst: t[3] == "1", script })
+    Some(XCase { k: t[1].parse().ok()?, flood: t[2].parse().ok()?, burst: t[3] == "1", script, mods })
 }
 
 /// returns (stats, failures)
@@ -147,31 +159,85 @@ pub fn run(c: &XCase) -> (Vec<String>, Vec<String>) {
 
     type Res = Result<DnsResponse, NetError>;
     let results: Rc<RefCell<Vec<Option<Res>>>> = Rc::new(RefCell::new((0..c.k).map(|_| None).collect()));
+    let has = |m: &str| c.mods.iter().any(|x| x == m);
+    let dropped_early: Vec<usize> = c.mods.iter().filter_map(|m| m.strip_prefix("dropcaller").and_then(|j| j.parse().ok())).collect();
+    let bg_dropped = has("bgdrop0") || has("bgdrop1");
     let mut tasks = vec![Task::new(bg)];
     for j in 0..c.k {
         let mut msg = Message::new(0, MessageType::Query, OpCode::Query);
         msg.queries.push(Query::new(Name::from_ascii(format!("r{j}.test.")).unwrap(), RecordType::A));
-        let resp = exchange.send(DnsRequest::new(msg, DnsRequestOptions::default()));
+        let req = DnsRequest::new(msg, DnsRequestOptions::default());
+        let resp = if has("clone") { exchange.clone().send(req) } else { exchange.send(req) };
         let results = results.clone();
+        if dropped_early.contains(&j) {
+            // the requester goes away before the background task has even seen the request
+            drop(resp);
+            results.borrow_mut()[j] = Some(Err(NetError::from("dropped by the script")));
+            tasks.push(Task::new(async {}));
+            continue;
+        }
         tasks.push(Task::new(async move {
             let r = resp.first_answer().await;
             results.borrow_mut()[j] = Some(r);
         }));
     }
+    // after the background task is gone: pending requests fail, a new one fails at once, nobody hangs
+    let after_bg_drop = |tasks: &mut Vec<Task>, fails: &mut Vec<String>, stats: &mut Vec<String>| {
+        run_until_quiescent(tasks);
+        for _ in 0..100 {
+            if tasks[1..].iter().all(|t| t.done) || !vtime::advance_next() {
+                break;
+            }
+            run_until_quiescent(tasks);
+        }
+        for (j, r) in results.borrow().iter().enumerate() {
+            match r {
+                Some(Err(_)) => stats.push("xchg.result.err".into()),
+                Some(Ok(_)) => fails.push(format!("request {j} completed with a response although the background task was dropped before any was delivered")),
+                None => fails.push(format!("request {j} is still pending after the background task was dropped")),
+            }
+        }
+        if has("late") {
+            let mut msg = Message::new(0, MessageType::Query, OpCode::Query);
+            msg.queries.push(Query::new(Name::from_ascii("late.test.").unwrap(), RecordType::A));
+            let mut resp = exchange.send(DnsRequest::new(msg, DnsRequestOptions::default()));
+            let w = Waker::from(CountWaker::new());
+            let mut cx = Context::from_waker(&w);
+            match resp.poll_next_unpin(&mut cx) {
+                Poll::Ready(Some(Err(_))) => stats.push("xchg.late-send.err".into()),
+                _ => fails.push("a request sent after the background task was gone did not fail at once".into()),
+            }
+        }
+    };
+    if has("bgdrop0") {
+        tasks[0] = Task::new(async {});
+        tasks[0].done = true;
+        stats.push("xchg.background-dropped.before-first-poll".into());
+        after_bg_drop(&mut tasks, &mut fails, &mut stats);
+        return (stats, fails);
+    }
     run_until_quiescent(&mut tasks);
     // every request must be on the wire now
     let ids: Vec<Option<u16>> = (0..c.k).map(|j| shared.lock().unwrap().ids.get(&format!("r{j}.test.")).copied()).collect();
-    if ids.iter().any(|i| i.is_none()) {
+    if ids.iter().enumerate().any(|(j, i)| i.is_none() && !dropped_early.contains(&j)) {
         fails.push("a request was not written to the stream although the background task went idle".into());
         return (stats, fails);
     }
-    let ids: Vec<u16> = ids.into_iter().map(|i| i.unwrap()).collect();
+    // (a request whose requester left early may or may not have been written: give it an id nobody has)
+    let ids: Vec<u16> = ids.into_iter().enumerate().map(|(j, i)| i.unwrap_or(60_000 + j as u16)).collect();
     for a in 0..ids.len() {
         for bb in a + 1..ids.len() {
             if ids[a] == ids[bb] {
                 fails.push(format!("requests {a} and {bb} are in flight with the same id {}", ids[a]));
             }
         }
+    }
+    if has("bgdrop1") {
+        tasks[0] = Task::new(async {});
+        tasks[0].done = true;
+        stats.push("xchg.background-dropped.after-requests-written".into());
+        after_bg_drop(&mut tasks, &mut fails, &mut stats);
+        return (stats, fails);
     }
     let mut unknown = 0u16;
     let mut fresh_unknown = |ids: &Vec<u16>| {
@@ -250,6 +316,10 @@ pub fn run(c: &XCase) -> (Vec<String>, Vec<String>) {
     let left = shared.lock().unwrap().inbox.len();
     stats.push(format!("xchg.frames-left-unread.{}", if left == 0 { "0" } else { ">0" }));
     for (j, r) in results.borrow().iter().enumerate() {
+        if dropped_early.contains(&j) {
+            stats.push("xchg.requester-left-before-the-request-was-forwarded".into());
+            continue;
+        }
         match r {
             None => {
                 fails.push(format!("request {j} never completed ({}; {left} frames unread)", if hung { "no task runnable and no timer pending" } else { "step budget exhausted" }));
@@ -275,6 +345,22 @@ pub fn run(c: &XCase) -> (Vec<String>, Vec<String>) {
                 }
             }
         }
+    }
+    // every requester and every handle goes away: the background task must shut down and end
+    let _ = bg_dropped;
+    tasks.truncate(1);
+    drop(exchange);
+    run_until_quiescent(&mut tasks);
+    for _ in 0..100 {
+        if tasks[0].done || !vtime::advance_next() {
+            break;
+        }
+        run_until_quiescent(&mut tasks);
+    }
+    if tasks[0].done {
+        stats.push("xchg.background-ended-after-last-handle-dropped".into());
+    } else {
+        fails.push("the background task did not end after every requester and every handle was dropped".into());
     }
     drop(tasks);
     (stats, fails)
